@@ -13,6 +13,7 @@ import OFV.Proofs.C19LambdaFinal
 import OFV.Proofs.C19LambdaOracle
 import OFV.Proofs.C19MolId
 import OFV.Proofs.C19MolOracle
+import OFV.Proofs.C19Phys
 import OFV.Proofs.C19Mono
 
 namespace OFV.C19
@@ -170,6 +171,18 @@ theorem qi2_global_minimiser (L1 L2 : Nat) (h1 : L1 ≤ 2 ^ 16) (h2 : L2 ≤ 2 ^
 
 example : (qr2 100 37 7).2.2 ≤ qr2Value 100 37 7 20 3 :=
   qr2_global_minimiser 100 37 7 (by norm_num) (by norm_num) 20 3 (by norm_num) (by norm_num)
+
+/-! ### `cost_estimator` (surface-code physical costing): the deterministic part -/
+
+/-- **Selection loop of `cost_estimator`**: given the candidate layouts `(physical qubits, rounds)` in loop order and
+which of them pass the failure-probability filter, the loop returns `None` iff none passes; otherwise a feasible
+candidate whose `qubits × rounds` is minimal among the feasible ones and strictly smaller than that of every earlier
+feasible candidate (first strict minimum).  The candidate table itself (`Model.C19.candidates`: factory dimensions,
+footprints, rounds, storage area) is integer / rational arithmetic compared exactly with the implementation on every
+candidate; only the failure probabilities (irrational powers) stay outside the Model. -/
+theorem cost_estimator_select_spec (cands : List (Nat × Nat)) (feasible : List Bool) :
+    selectOk cands feasible (Model.C19.selectBest cands feasible) = true :=
+  OFV.Proofs.C19Ph.selectBest_ok cands feasible
 
 /-! ### `lambda_norm` and the Jordan-Wigner image -/
 
